@@ -88,3 +88,13 @@ check("C10", "fault_enumeration",
       "Wall-clock only bounds runs (watchdog 10 s); 'promptly' is judged by stuck-state evidence, elapsed times are reported as inconclusive notes.",
       "runtime monitoring: cancellation injected at every enumerated gate with boundary recording and leak detection",
       "DESIGN.md 3/C10")
+check("C11", "exploration",
+      "Runs many short multi-goroutine histories against a real chpool.Pool over simulated connections (race build): Acquire / queries that succeed, fail with an exception, lose the connection or are cancelled / Release once, twice or through a stale handle / Pool.Do / Pool.Ping / Close, in five configuration classes (pure locking, destroy-on-release, idle reaping judged in completed health passes through a hook, slow idle reaping, mixed lifetimes). The event log recorded at the boundary (client-side call/return stamps from one logical clock, server-side per-connection request log with unique session ids, dial/close log) is checked offline: contiguous session blocks per connection, porcupine linearizability against a lock-per-connection model, open connections <= MaxConns at every dial, no session on a connection that had to be destroyed, no panic, idle reaping within the pass bound, everything closed after Close. Held = all checkers silent on all histories; porcupine timeouts are inconclusive.",
+      "The harness never uses a handle after releasing it. porcupine v1.3.0.",
+      "runtime monitoring: recorded concurrent histories checked offline (linearizability with porcupine, ordering and conservation checkers)",
+      "DESIGN.md 3/C11")
+check("C12", "exploration",
+      "Executes the query scenarios (with OpenTelemetry instrumentation on and off; streamed inserts while progress and profile events arrive; cancel, foreign Close, exception and callback failure injected at every gate) and shared-pool histories in a -race build under GOMAXPROCS 2/4/16, repeated; the race detector's log files are parsed in the parent, deduplicated by stack signature and attributed to the library or the harness by the first owning frame of each access. Held = no report with a library-owned access on the interleavings observed (their number is reported as distinct hook-order signatures).",
+      "A clean run is 'no race reported on the observed interleavings', not race freedom.",
+      "runtime monitoring: Go race detector (ThreadSanitizer) over fault-injected concurrent workloads",
+      "DESIGN.md 3/C12")
